@@ -14,6 +14,21 @@ def T(name, q, t, **kw):
 REGRESS = lambda: T("TestRegress", (1, 0), (1, 0))
 
 PROPS = {
+    "C03": dict(
+        pkg="./props/c03_breaker",
+        tests=[
+            REGRESS(),
+            T("TestBreakerMachine", (8, 20000), (16, 400000)),
+        ],
+        fuzz=[dict(name="FuzzBreakerMachine", time="120s")],
+        require_classes=["boundary-instant-hit", "threshold-transition"],
+        rule="rapid-generated histories (up to 60 operations quick / 120 thorough) of RecordSuccess/RecordFailure/RecordResult/RecordError, TryAcquirePermit, Open/HalfOpen/Close, executions through the breaker and boundary-biased advances of an injected virtual clock, over count / ratio / period-count / period-rate configurations with and without success thresholds, fixed delay or delay function; non-trivial = at least 2 state transitions of which at least 1 was decided by a threshold; distinct = hash of (configuration kind, success threshold present, transition string, whether an exact delay/slice boundary instant was hit, condition profile)",
+        assumptions=[
+            "virtual clock injected through circuitbreaker.VerifWithClock (build tag verif)",
+            "thresholding periods are multiples of 10ns (10 equal slices), thresholds within capacity, rate thresholds 1..100",
+            "results recorded without an acquired permit in half-open state, or while open, make admission counts and metrics unchecked until the next transition (DESIGN.md L3); results aged within (0.9*period, period] may or may not count (L4)",
+        ],
+    ),
     "C05": dict(
         pkg="./props/c05_ratelimiter",
         tests=[
